@@ -1,0 +1,26 @@
+// Copyright 2019 The Scriggo Authors. All rights reserved.
+// Use of this source code is governed by a BSD-style
+// license that can be found in the LICENSE file.
+
+//go:build verif
+
+// Package verifbridge exposes the verification hooks of the internal packages
+// to an external conformance harness. It exists only with the "verif" build
+// tag.
+package verifbridge
+
+import (
+	"github.com/open2b/scriggo/internal/compiler"
+	"github.com/open2b/scriggo/internal/runtime"
+)
+
+// SetLexTracer installs the tracer of the lexer/parser token protocol.
+func SetLexTracer(f func(id uintptr, proc int, ev string, n int)) {
+	compiler.VerifLexTracer = f
+}
+
+// SetRuntimeTracer installs the tracer of the run-time events (see
+// internal/runtime/verif_on.go). The tracer may block in "block-*" events.
+func SetRuntimeTracer(f func(vm, env uintptr, ev string, a int, b uintptr)) {
+	runtime.VerifRTTracer = f
+}
